@@ -69,6 +69,7 @@ func (c *Ctx) layoutRule(rule string, fn *ssa.Function, isRead bool, filter func
 		c.R.Infof(rule, name(fn), "layout:"+specName, c.Pos(fn.Pos()), "not decided for this shape: the wire sequence cannot be extracted ("+why+")")
 		return
 	}
+	dbgI("layoutRule %s %s: %s\n", name(fn), specName, leavesString(ls))
 	if isRead {
 		ls = collapseUnnamedRuns(ls)
 	}
@@ -93,7 +94,7 @@ func (c *Ctx) layoutRule(rule string, fn *ssa.Function, isRead bool, filter func
 			continue // a variable-length run: its length is judged by the tail rules
 		}
 		nameOK := strings.HasSuffix(got[k].id, "."+want[k].name) || got[k].id == want[k].name || lastComponent(got[k].id) == lastComponent(want[k].name) ||
-			got[k].src != nil && got[k].src.field == nil && !strings.Contains(got[k].id, ".")
+			plainLocalLeaf(got[k])
 		if got[k].id == "(skipped)" || got[k].id == "value" || got[k].id == "bytes" {
 			nameOK = true
 		}
@@ -282,9 +283,12 @@ func (c *Ctx) keptOnEveryIteration(rule string, fn, f *ssa.Function, call *ssa.C
 		}
 	}
 	skipped := ""
+	// a test of the same error variable that cannot run after the call (the variable
+	// is shared with an earlier read, tested before the loop) says nothing about this decode
+	afterCall, _ := ir.Reach(f, call.Block(), nil)
 	for _, ce := range ir.CondEdges(f) {
 		v, isNil := errIsNil(ce.RawCond, ce.RawTruth)
-		if v == nil || !isNil || !sameErrValue(v, e) || ce.If == nil {
+		if v == nil || !isNil || !sameErrValue(v, e) || ce.If == nil || !afterCall[ce.Edge.From] {
 			continue
 		}
 		start := f.Blocks[ce.Edge.To]
@@ -671,16 +675,14 @@ var factHeaderSizeZero = &fact{id: "HeaderSize==0", what: "the list is accepted 
 	subject: []string{sigPkg + ".SignatureList.HeaderSize"},
 	direct: func(c *Ctx, fn *ssa.Function, ce ir.CondEdge) bool {
 		cmp, ok := ce.Cond.(*ssa.BinOp)
-		if !ok || (cmp.Op != token.EQL && cmp.Op != token.NEQ) {
+		if !ok {
 			return false
 		}
-		if k, isK := ir.ConstInt(cmp.Y); !isK || k != 0 {
-			return false
-		}
-		if ir.FieldID(ir.StripConv(cmp.X)) != sigPkg+".SignatureList.HeaderSize" {
-			return false
-		}
-		return ce.Truth == (cmp.Op == token.EQL)
+		// HeaderSize == 0 in any spelling (0 == x, and for the unsigned field x <= 0, x < 1, !(x > 0), ...)
+		x, zero := unsignedZeroOnEdge(cmp, ce.Truth)
+		// the field itself, or a parameter of a checking helper that was handed the field
+		// (or the field of the decoder's own header value that the result's field is copied from)
+		return zero && c.plainCopyVia(x, sigPkg+".SignatureList.HeaderSize")
 	}}
 
 // ruleNoAlias (G9): decoded data must be copied out of the caller's buffer:
@@ -809,8 +811,20 @@ func checkC08(c *Ctx) {
 var factWholeEntries = &fact{id: "whole-entries", what: "the list size is 28 plus a whole number of signatures of the list's signature size",
 	direct: func(c *Ctx, fn *ssa.Function, ce ir.CondEdge) bool {
 		cmp, ok := ce.Cond.(*ssa.BinOp)
-		if !ok || (cmp.Op != token.EQL && cmp.Op != token.NEQ) || ce.Truth != (cmp.Op == token.EQL) {
+		if !ok {
 			return false
+		}
+		// the remainder compared with zero in an unsigned spelling (rem > 0 not taken, rem < 1, 0 >= rem ...)
+		remZero := ssa.Value(nil)
+		if x, zero := unsignedZeroOnEdge(cmp, ce.Truth); zero {
+			remZero = x
+		}
+		if ((cmp.Op != token.EQL && cmp.Op != token.NEQ) || ce.Truth != (cmp.Op == token.EQL)) && remZero == nil {
+			return false
+		}
+		// the ListSize field, or a parameter of a checking helper that was handed it
+		isListSizeSym := func(sym string, v ssa.Value) bool {
+			return strings.HasSuffix(sym, ".ListSize") || v != nil && c.plainCopyOf(v, sigPkg+".SignatureList.ListSize")
 		}
 		isBody := func(v ssa.Value) bool { // ListSize - 28
 			a := affineOf(v, 0)
@@ -818,22 +832,26 @@ var factWholeEntries = &fact{id: "whole-entries", what: "the list size is 28 plu
 				return false
 			}
 			for sym, cf := range a.T {
-				if cf != 1 || !strings.HasSuffix(sym, ".ListSize") {
+				if cf != 1 || !isListSizeSym(sym, a.Sym[sym]) {
 					return false
 				}
 			}
 			return true
 		}
 		isSize := func(v ssa.Value) bool {
-			return ir.FieldID(ir.StripConv(v)) == sigPkg+".SignatureList.Size" || copiedIntoField(fn, v, sigPkg+".SignatureList.Size")
+			return ir.FieldID(ir.StripConv(v)) == sigPkg+".SignatureList.Size" || copiedIntoField(fn, v, sigPkg+".SignatureList.Size") ||
+				c.plainCopyOf(v, sigPkg+".SignatureList.Size")
 		}
 		// (ListSize-28) % Size == 0
-		for _, side := range [][2]ssa.Value{{cmp.X, cmp.Y}, {cmp.Y, cmp.X}} {
-			if k, isK := ir.ConstInt(side[1]); isK && k == 0 {
-				if rem, isB := ir.StripConv(side[0]).(*ssa.BinOp); isB && rem.Op == token.REM && isBody(rem.X) && isSize(rem.Y) {
-					return true
-				}
+		if remZero != nil {
+			// (the body may have been kept in a variable that a function literal captures and
+			// changes only later: resolveCellAt)
+			if rem, isB := ir.StripConv(remZero).(*ssa.BinOp); isB && rem.Op == token.REM && (isBody(rem.X) || isBody(resolveCellAt(ir.StripConv(rem.X)))) && isSize(rem.Y) {
+				return true
 			}
+		}
+		if (cmp.Op != token.EQL && cmp.Op != token.NEQ) || ce.Truth != (cmp.Op == token.EQL) {
+			return false
 		}
 		// 28 + ((ListSize-28)/Size)*Size == ListSize, in any arrangement of the sum
 		var mul *ssa.BinOp
@@ -842,12 +860,13 @@ var factWholeEntries = &fact{id: "whole-entries", what: "the list size is 28 plu
 			if depth > 6 {
 				return
 			}
-			switch x := ir.StripConv(resolveCell(ir.StripConv(v))).(type) {
+			switch x := ir.StripConv(resolveCellAt(ir.StripConv(v))).(type) {
 			case *ssa.BinOp:
 				if x.Op == token.MUL {
 					for _, p := range [][2]ssa.Value{{x.X, x.Y}, {x.Y, x.X}} {
 						// the quotient may have been kept in a variable a function literal captures
-						if q, isQ := ir.StripConv(resolveCell(ir.StripConv(p[0]))).(*ssa.BinOp); isQ && q.Op == token.QUO && isBody(resolveCell(ir.StripConv(q.X))) && isSize(q.Y) && isSize(p[1]) {
+						// (also one the literal changes later: resolveCellAt)
+						if q, isQ := ir.StripConv(resolveCellAt(ir.StripConv(p[0]))).(*ssa.BinOp); isQ && q.Op == token.QUO && isBody(resolveCellAt(ir.StripConv(q.X))) && isSize(q.Y) && isSize(p[1]) {
 							mul = x
 						}
 					}
@@ -864,7 +883,7 @@ var factWholeEntries = &fact{id: "whole-entries", what: "the list size is 28 plu
 		if mul == nil {
 			return false
 		}
-		d := affineOf(cmp.X, 0).add(affineOf(cmp.Y, 0), -1)
+		d := affineOf(resolveCellAt(ir.StripConv(cmp.X)), 0).add(affineOf(resolveCellAt(ir.StripConv(cmp.Y)), 0), -1)
 		// d must be ±(m + 28 - ListSize) with m the product's symbol
 		m := affineOf(mul, 0)
 		if len(m.T) != 1 {
@@ -873,7 +892,7 @@ var factWholeEntries = &fact{id: "whole-entries", what: "the list size is 28 plu
 		want := m.clone()
 		want.K = 28
 		for sym := range d.T {
-			if strings.HasSuffix(sym, ".ListSize") {
+			if isListSizeSym(sym, d.Sym[sym]) {
 				want.T[sym] = -1
 				want.Sym[sym] = d.Sym[sym]
 			}
@@ -975,6 +994,7 @@ func init() {
 // is reachable only through Size == 48.
 func (c *Ctx) sha256Gate(rl *ssa.Function) {
 	var starts []*ssa.BasicBlock
+	var startCond []ssa.Value
 	for _, ce := range ir.CondEdges(rl) {
 		cmp, ok := ce.Cond.(*ssa.BinOp)
 		if !ok || cmp.Op != token.EQL || !ce.Truth {
@@ -982,6 +1002,7 @@ func (c *Ctx) sha256Gate(rl *ssa.Function) {
 		}
 		if k, isK := cmp.Y.(*ssa.Const); isK && k.Value != nil && k.Value.Kind() == constant.String && constant.StringVal(k.Value) == "SHA256" {
 			starts = append(starts, rl.Blocks[ce.Edge.To])
+			startCond = append(startCond, ce.Cond)
 		}
 	}
 	if len(starts) == 0 {
@@ -1002,8 +1023,23 @@ func (c *Ctx) sha256Gate(rl *ssa.Function) {
 		}
 	}
 	ok, where := true, ""
-	for _, st := range starts {
-		seen, _ := ir.Reach(rl, st, cut)
+	for k, st := range starts {
+		// the comparison kept in a variable and tested again (isSHA256 := sig == "SHA256"):
+		// one value has one outcome, so its other edges cannot be taken from here
+		// (unless it is computed inside a loop, where it is a new value every time round)
+		cutk := cut
+		if def, isI := startCond[k].(ssa.Instruction); isI && !inAnyLoop(rl, def.Block()) {
+			cutk = map[ir.Edge]bool{}
+			for ed := range cut {
+				cutk[ed] = true
+			}
+			for _, ce := range ir.CondEdges(rl) {
+				if ce.Cond == startCond[k] && !ce.Truth {
+					cutk[ce.Edge] = true
+				}
+			}
+		}
+		seen, _ := ir.Reach(rl, st, cutk)
 		for _, r := range acceptingReturns(rl) {
 			if seen[r.Block().Index] {
 				ok, where = false, c.IPos(r)
@@ -1206,18 +1242,25 @@ func precedes(a ssa.Instruction, b ssa.Instruction) bool {
 func (c *Ctx) firstIterationOnly(fn *ssa.Function, r *ssa.Return) bool {
 	for _, ce := range ir.DominatingConds(fn, r.Block()) {
 		cmp, ok := ce.Cond.(*ssa.BinOp)
-		if !ok || cmp.Op != token.EQL || !ce.Truth {
+		if !ok {
 			continue
 		}
-		if k, isK := ir.ConstInt(cmp.Y); !isK || k != 0 {
+		// index == 0 in any spelling: the index counts up from 0, so index < 1, index <= 0,
+		// 1 > index ... say the same
+		cx, atMostZero := atMostZeroOnEdge(cmp, ce.Truth)
+		if !atMostZero {
 			continue
 		}
 		// X is the loop index: phi+1 of a header phi starting at -1, or a phi starting at 0
-		x := ir.StripConv(cmp.X)
+		x := ir.StripConv(cx)
 		if bo, ok := x.(*ssa.BinOp); ok && bo.Op == token.ADD {
 			x = bo.X
 		}
 		if ph, ok := x.(*ssa.Phi); ok {
+			// an inequality says "first iteration" only for a counter that goes up
+			if cmp.Op != token.EQL && cmp.Op != token.NEQ && !countsUp(ph) {
+				continue
+			}
 			for _, e := range ph.Edges {
 				if k, isK := ir.ConstInt(e); isK && (k == -1 || k == 0) {
 					return true
@@ -1268,6 +1311,12 @@ func (c *Ctx) eofOrigins(fn *ssa.Function, r *ssa.Return, v ssa.Value, seen map[
 				if args, ok := variadicArgs(x.Call.Args[1]); ok {
 					var out []*ssa.Call
 					for _, a := range args {
+						// an error handed to the variadic ...any parameter is an
+						// interface-to-interface conversion (ChangeInterface), not a
+						// MakeInterface: look at the operand below it
+						if ci, isCI := a.(*ssa.ChangeInterface); isCI {
+							a = ci.X
+						}
 						if isErrorType(a.Type()) {
 							out = append(out, c.eofOrigins(fn, r, a, seen, depth+1)...)
 						}
@@ -1500,8 +1549,12 @@ func normaliseUEFIBody(ls []leaf, isWriter bool) []leaf {
 // from the deep wire extraction; why != "" if neither can describe it.
 func (c *Ctx) wireLeaves(fn *ssa.Function, isRead bool) ([]leaf, string) {
 	if os.Getenv("VCHECK_WIRE") != "table" {
-		if ls, ok, _ := c.deepLeaves(fn, isRead); ok {
+		ls, ok, why := c.deepLeaves(fn, isRead)
+		if ok {
 			return ls, ""
+		}
+		if why == whyPerItemHelper {
+			return nil, why // the tables do not model that loop either
 		}
 	}
 	opaque := c.codecOpaque(fn, 0)
